@@ -69,9 +69,41 @@ class Capacity:
             return out.variant
         return "other"
 
+    def replay(self, run, decls, asserts):
+        """a feasible capacity counterexample: a model with small c and L is asked for and run through
+        the real compiler (direct and compressed route); reproduced iff the real outcome disagrees with
+        the documented capacity rule or the two routes disagree"""
+        import re
+        import subprocess
+
+        def rp(_model):
+            script = ["(set-logic QF_BV)"] + [d for d in decls if not d.startswith(";")] + \
+                     [f"(assert {a})" for a in asserts] + \
+                     ["(assert (bvult c (_ bv3000 64)))", "(assert (bvult L (_ bv3400 64)))", "(assert (bvuge L (_ bv8 64)))",
+                      "(assert (bvuge c (_ bv4 64)))", "(check-sat)", "(get-value (c L))"]
+            p = subprocess.run(["z3-new", "-in", "-T:120"], input="\n".join(script), capture_output=True, text=True)
+            if not p.stdout.startswith("sat"):
+                return False, {"small-model": p.stdout[:200]}
+            vals = {k: int(v, 16) for k, v in re.findall(r"\((\w+) #x([0-9a-f]+)\)", p.stdout)}
+            c, L = vals["c"], vals["L"]
+            rb = fw.run_driver(fw.REAL_BIN, ["kzg", "capacity", str(c), str(L - 7)], run.seed)
+            o = rb["outputs"]
+            pad = self.consts["CIRCUIT_SIZE_PADDING"][1]
+            n = 1
+            while n < c + pad:
+                n *= 2
+            spec_ok = n + 6 <= L - 1
+            direct_ok, comp_ok = o["direct"] == "Ok", o["compressed"] == "Ok"
+            bad = o["constraints"] == c and o["key_length"] == L and (direct_ok != spec_ok or direct_ok != comp_ok
+                                                                      or "PANIC" in (o["direct"], o["compressed"]))
+            return bad, {"c": c, "key_length": L, "driver": ["kzg", "capacity", str(c), str(L - 7)], "real": o,
+                         "documented_rule_accepts": spec_ok}
+        return rp
+
     def q(self, run, name, decls, asserts, kind="capacity", expect="unsat"):
         lines = ["; QF_BV"] + decls
-        return run.obligation(name, lines, asserts, expect, kind, get_model=True)
+        return run.obligation(name, lines, asserts, expect, kind, get_model=True,
+                              replay=self.replay(run, decls, asserts) if expect == "unsat" and "packed" not in name else None)
 
 
 def c01_obligations(run, cap):
